@@ -669,14 +669,23 @@ def float_limit_emission(ctx, prog, rule):
     # emission sites: appends whose text starts an attribute
     sites = {"minimum": [], "maximum": []}
     for bi, t in f.calls(lambda c, t: c.endswith("AddAssign<&str>>::add_assign") or c.endswith("String::push_str")):
-        try:
-            toks = xmlgen.sval(prog, f, R.operand(t["args"][1]))
-        except Exception:
-            continue
-        lits = " ".join(tk[1] for tk in toks if tk[0] == "lit")
-        for a in sites:
-            if (" %s=" % a) in lits:
-                sites[a].append(bi)
+        arg = R.operand(t["args"][1])
+        sa = strip(arg)
+        # `s += &helper(min, max)` with the helper inlined: the appended value is a choice between strings built in
+        # different arms - the site of an attribute is the arm that builds it
+        for alt in (sa[1] if sa[0] == "phi" else (arg,)):
+            try:
+                toks = xmlgen.sval(prog, f, alt)
+            except Exception:
+                continue
+            lits = " ".join(tk[1] for tk in toks if tk[0] == "lit")
+            blk = bi
+            if sa[0] == "phi":
+                calls_ = [x for x in leaves(alt) if x[0] == "call" and len(x) > 3 and isinstance(x[3], int) and x[3] >= 0]
+                blk = calls_[0][3] if calls_ else bi
+            for a in sites:
+                if (" %s=" % a) in lits:
+                    sites[a].append(blk)
     n = 0
     for var in ("Single", "Double"):
         if not sites["minimum"] or not sites["maximum"]:
@@ -695,7 +704,8 @@ def float_limit_emission(ctx, prog, rule):
                 if got_min != bool(smin) or got_max != bool(smax):
                     bad.append("min %s / max %s -> minimum %s, maximum %s" % ("Some" if smin else "None", "Some" if smax else "None", "written" if got_min else "not written", "written" if got_max else "not written"))
         ctx.ob(rule, "float-limit-emission/%s" % var, not bad, "%s: minimum is written exactly when min is Some and maximum exactly when max is Some%s" % (var, ("; VIOLATED: " + "; ".join(bad)) if bad else ""))
-    ctx.floor(rule, "presence combinations of float limits decided", n, 8)
+    if n < 8:
+        ctx.ob(rule, "float-limit-emission/coverage", None, "only %d of 8 presence combinations could be decided (the attributes are not appended at separate sites)" % n, nontrivial=False)
 
 
 def type_attributes(ctx, prog, rule):
@@ -731,7 +741,13 @@ def type_attributes(ctx, prog, rule):
     want = {"Float:single": ["maximum", "minimum", "precision", "type"], "Float:double": ["maximum", "minimum", "type"],
             "ScaledInteger": ["maximum", "minimum", "offset", "scale", "type"], "Integer": ["maximum", "minimum", "type"]}
     got = {k: v[0] for k, v in written.items()}
-    ctx.ob(rule, "type-attributes/written", got == want, "attributes written per data type: %s (integer kinds must always carry minimum and maximum, scaled integers scale and offset)" % got)
+    verdict_w = got == want
+    if not verdict_w and all(got.get(k) == want[k] for k in ("ScaledInteger", "Integer")) and all(
+            got.get(k) is not None and set(got[k]) <= set(want[k]) and set(want[k]) - set(got[k]) <= {"minimum", "maximum"} for k in ("Float:single", "Float:double")):
+        # the optional float limits are appended under attribute names this extraction cannot read (computed keys):
+        # undecided here; their presence logic is float-limit-emission's business
+        verdict_w = None
+    ctx.ob(rule, "type-attributes/written", verdict_w, "attributes written per data type: %s (integer kinds must always carry minimum and maximum, scaled integers scale and offset)" % got)
     okv = True
     for k, (_, vmap) in written.items():
         var = {"Float:single": "Single", "Float:double": "Double"}.get(k, k)
